@@ -44,10 +44,9 @@ theorem planClone_true_ok {h : Heap} : ∀ {f : Nat} {a : Addr} {t : ATree} {p :
           obtain ⟨c, _, tc, htc, hpc⟩ := hall k hk'
           exact (planClone_true_ok htc hpc).2.2.2
 
-/-- a mutable object that is not the list behind a default witness and does not count in the mutable
-    top part of an unfolding does not occur in it at all -/
+/-- a mutable object that does not count in the mutable top part of an unfolding does not occur in it at all -/
 theorem not_mem_of_cnt_zeroX {h : Heap} (hinv : InvX h) {x : Addr} {ox : Obj}
-    (hox : h[x]? = some ox) (hmx : ox.isMut = true) (hkx : ox.sc.kind ≠ 10) : ∀ {f : Nat} {a : Addr} {t : ATree},
+    (hox : h[x]? = some ox) (hmx : ox.isMut = true) : ∀ {f : Nat} {a : Addr} {t : ATree},
     unfoldA f h a = some t → cnt x t = 0 → x ∉ addrs t
   | 0, _, _, hu, _ => by simp [unfoldA] at hu
   | f + 1, a, t, hu, hc => by
@@ -56,11 +55,9 @@ theorem not_mem_of_cnt_zeroX {h : Heap} (hinv : InvX h) {x : Addr} {ox : Obj}
     | false =>
       intro hx
       obtain ⟨ox', hox', hfr⟩ := imm_reachX hinv.immClosed hinv.kindOK hinv.typed hu
-        (fun o' ho' => by rw [ho] at ho'; cases ho'; exact Or.inl hm) x hx
+        (fun o' ho' => by rw [ho] at ho'; cases ho'; exact hm) x hx
       rw [hox] at hox'; cases hox'
-      rcases hfr with h1 | h1
-      · rw [hmx] at h1; cases h1
-      · exact hkx h1
+      rw [hfr] at hmx; cases hmx
     | true =>
       simp only [cnt, hm, if_true] at hc
       have hax : a ≠ x := by intro e; simp [e] at hc
@@ -70,10 +67,10 @@ theorem not_mem_of_cnt_zeroX {h : Heap} (hinv : InvX h) {x : Addr} {ox : Obj}
       intro hx
       obtain ⟨k, hk', hxk⟩ := mem_addrsL.mp hx
       obtain ⟨c, _, huc⟩ := mapO_mem hk hk'
-      exact not_mem_of_cnt_zeroX hinv hox hmx hkx huc (cntL_eq_zero.mp hcl k hk') hxk
+      exact not_mem_of_cnt_zeroX hinv hox hmx huc (cntL_eq_zero.mp hcl k hk') hxk
 
 /-- **(iii) restated**: after `CMutableX.from_x(src)`, every mutable object reachable from the copy
-    (the list behind a default witness aside, which nothing writes) was allocated by the copy
+    was allocated by the copy
     operation itself: the copy shares no writable object with its source nor with anything else that
     existed — whatever aliasing the caller had created before -/
 theorem copy_fresh {h : Heap} (hinv : InvX h) {a : Addr} {ta : ATree} {p : Plan}
@@ -81,19 +78,19 @@ theorem copy_fresh {h : Heap} (hinv : InvX h) {a : Addr} {ta : ATree} {p : Plan}
     InvX (allocPlan h p).1 ∧ (∃ e, (allocPlan h p).1 = h ++ e) ∧
     ∃ t', unfoldA D (allocPlan h p).1 (allocPlan h p).2 = some t' ∧
       ∀ (x : Addr) (ox : Obj), x ∈ addrs t' → (allocPlan h p).1[x]? = some ox → ox.isMut = true →
-        ox.sc.kind ≠ 10 → h.length ≤ x := by
+        h.length ≤ x := by
   obtain ⟨hfit, hrefs, himm, hall⟩ := planClone_true_ok hu hp
   have hres := allocPlan_spec h (fun _ _ => True) p D h ⟨[], by simp⟩ hfit hall himm
   obtain ⟨t', ht', hpt⟩ := hres.tree
   obtain ⟨hi1, hext, _⟩ := invx_alloc hinv (planClone_goodX hinv true hp).1
   refine ⟨hi1, hext, t', ht', ?_⟩
-  intro x ox hx hox hmx hkx
+  intro x ox hx hox hmx
   have hc := (PT.cnt_le x hpt hrefs).2
   by_cases hlt : h.length ≤ x
   · exact hlt
   · exfalso
     have c : ¬(h.length ≤ x ∧ x < (allocPlan h p).1.length) := fun c => hlt c.1
     rw [if_neg c] at hc
-    exact not_mem_of_cnt_zeroX hi1 hox hmx hkx ht' (Nat.le_zero.mp hc) hx
+    exact not_mem_of_cnt_zeroX hi1 hox hmx ht' (Nat.le_zero.mp hc) hx
 
 end BtcVerif.Model.Heap
